@@ -199,7 +199,7 @@ func clauseOf(msg string) string {
 func reentrant(r *lib.Report, tier string) (int64, int64, []interface{}) {
 	depth := 4
 	if tier == "thorough" {
-		depth = 5
+		depth = 6
 	}
 	ops := []string{"sub0", "sub1", "sub2", "unsub0", "unsub1", "unsub2", "pub"}
 	var states, trans int64
